@@ -207,6 +207,14 @@ func selfTest(env *fw.Env, accepted []*fw.Trace) []*fw.Trace {
 			j := find(c, "REnd", nil)
 			c.Events = append(c.Events[:j:j], append([]fw.Event{{"ev": "D", "src": "inj", "k": "fd", "off": 0, "len": 1, "eq": false}}, c.Events[j:]...)...)
 			out = append(out, c)
+			if k := find(t, "W", func(e fw.Event) bool { return e["op"] == "write" && e["err"] == false }); k >= 0 {
+				c = next(t) // a Write on the open stream was refused
+				c.Events[k]["err"] = true
+				out = append(out, c)
+				c = next(t) // ... or came back short
+				c.Events[k]["ret"] = c.Events[k]["ret"].(int) - 1
+				out = append(out, c)
+			}
 			c = next(t) // end-of-stream although the writer never closed
 			for k := len(c.Events) - 1; k >= 0; k-- {
 				if c.Events[k]["ev"] == "W" && c.Events[k]["op"] != "write" {
@@ -266,10 +274,13 @@ func main() {
 			if env.Tier == "thorough" {
 				w, ws = "4", "3"
 			}
-			return []fw.TLCJob{
+			jobs := []fw.TLCJob{
 				{Name: "mc:CrossFrame_mc.cfg(W=" + w + ")", Module: "CrossFrame", Cfg: "CrossFrame_mc.cfg", Consts: map[string]string{"MAXW": w}, Timeout: 14 * time.Minute},
-				{Name: "mc:CrossFrame_strict.cfg(W=" + ws + ")", Module: "CrossFrame", Cfg: "CrossFrame_strict.cfg", Consts: map[string]string{"MAXW": ws}},
 			}
+			if env.Tier == "thorough" { // strict clauses without colliding ids (quick tier: left out to keep its wall time under load)
+				jobs = append(jobs, fw.TLCJob{Name: "mc:CrossFrame_strict.cfg(W=" + ws + ")", Module: "CrossFrame", Cfg: "CrossFrame_strict.cfg", Consts: map[string]string{"MAXW": ws}})
+			}
+			return jobs
 		},
 		GenJobs: func(env *fw.Env) []fw.TLCJob {
 			gen := func(w, i int) fw.TLCJob {
